@@ -33,7 +33,7 @@ SKELS = {
     "C09": ["ch_newNodeStream", "ch_enqueue", "ch_routeResponse", "ch_cancelPendingMsgs", "ch_deleteRouter", "ch_sendMsg", "ch_sender", "ch_receiver", "ch_connect", "ch_reconnect",
             "ch_isConnected", "handleCorrectableCall"],
     "C10": ["ch_connect", "ch_reconnect", "ch_newNodeStream", "ch_receiver", "ch_sender", "ch_newChannel", "node_RawNode_newContext", "node_RawNode_dial", "node_RawNode_connect", "srv_NodeStream"],
-    "C12": ["mgr_RawManager_Close", "mgr_RawManager_closeNodeConns", "node_RawNode_close", "node_RawNode_connect", "ch_enqueue", "ch_sender", "ch_receiver", "ch_reconnect", "Multicast", "Unicast"],
+    "C12": ["mgr_RawManager_Close", "mgr_RawManager_closeNodeConns", "node_RawNode_close", "node_RawNode_connect", "node_RawNode_dial", "ch_enqueue", "ch_sender", "ch_receiver", "ch_reconnect", "Multicast", "Unicast"],
     "C18": ["ch_routeResponse", "ch_enqueue", "ch_deleteRouter", "ch_cancelPendingMsgs", "ch_sendMsg", "ch_receiver", "ch_reconnect", "handleAsyncCall", "handleCorrectableCall", "QuorumCall"],
 }
 
@@ -83,7 +83,7 @@ PROPS = {
         text="Partial. Theorem (Props/C15.lean) guarded_race_free: in any trace that respects the semantics of sync.Mutex / sync.RWMutex, if every write to x holds lock l exclusively and every read holds it exclusively or "
              "shared, then any two conflicting accesses to x are ordered by happens-before (program order + Unlock->Lock/RLock + RUnlock->Lock edges): no data race on x; without the lock the same writes are unordered. "
              "Tie (Tie/C15.lean): the access table of all selectors on the tracked fields of channel / RawManager / RawNode / Correctable with the locks held at each (lock-set walk by gx, regenerated on every run) "
-             "is proved row by row to obey the field's policy; the atomic flags go through sync/atomic only. Behavioural: thirteen engines built with -race; every report with a library frame is a violation.",
+             "is proved row by row to obey the field's policy (lock-guarded fields; fields that are set once in newChannel before the goroutines exist and only read afterwards; the channel's *rand.Rand, which must not be used at all afterwards); the atomic flags go through sync/atomic only. Behavioural: thirteen engines built with -race; every report with a library frame is a violation.",
         note="Partial: which accesses the program makes and which locks it holds is a syntactic, intra-procedural extraction by gx (trusted); atomics, channels and `go` edges are covered only by the race detector runs.",
         technique="Lean 4 theorem that the lock discipline implies happens-before ordering; tie = lock-set access table regenerated from the source and checked against the policy by the kernel; Go race detector on the behavioural engines",
     ),
@@ -199,7 +199,7 @@ PROPS = {
              "the hand-written constructor model (tied by digests and by the exact T3 run).",
     ),
     "C13": dict(
-        level="proof", engines=[eng("codec", 30000, 2000000)], labels=["C13"],
+        level="proof", engines=[eng("codec", 30000, 400000)], labels=["C13"],
         text="Theorems (Props/C13.lean): LEB128 varint round trip for every 64-bit value and continuation; frame round trip for all byte strings; a non-negative "
              "length result stays inside the buffer and a negative one comes with an empty slice; decode(encode) yields the same metadata and message of the type the "
              "direction selects; with the checked assertion the decoder panics on no byte string (unmarshal_total). Tie (Tie/C13.lean): the comma-ok form of the descriptor "
